@@ -612,3 +612,101 @@ def run_c04(ctx):
                 ctx.notes.append("an 'invalid by construction' document parsed without error")
     finally:
         sc.close()
+
+
+# ------------------------------------------------------------------------------ documents of the known findings (C04)
+def run_c04_known(ctx):
+    """fixed documents reproducing the open findings of C04 (most of them rooted in the uvlparser dependency): each has a
+    control variant that differs only in the construct concerned and must be read correctly, so that a failure is
+    attributable; failures are reported under the clause  known:<finding key>:...  and matched with known_findings.json"""
+    from flamapy.metamodels.fm_metamodel.transformations import UVLReader
+    st = ctx.suite("R-uvl-known")
+    sc = fmt.Scratch()
+    F, R, A = spec.F, spec.R, spec.A
+    RAISE = "raise"
+
+    def num(i):
+        return (("i", i), None, None)
+
+    base = dict(root=F("A", [R(1, 1, [F("B")]), R(1, 1, [F("C")])]),
+                ctcs=[("c0", OP("IMPLIES", T("B"), T("C"))), ("c1", OP("IMPLIES", T("C"), T("B")))])
+    plain = "features\n    A\n        mandatory\n            B\n            C\nconstraints\n    B => C\n    C => B\n"
+    ax = dict(root=F("A", attrs=[A("x", default=1)]), ctcs=[])
+
+    def arith(txt, node):
+        return ("features\n    A {x 1}\nconstraints\n    " + txt + "\n", dict(ax, ctcs=[("c0", node)]))
+    X = T("A.x")
+    docs = [
+        # (finding key or None for a control, label, text, expected)
+        (None, "control:plain", plain, base),
+        ("uvl-parser-comment-or-blank-line-inside-block", "comment line between two children",
+         plain.replace("            C\n", "            // second child\n            C\n"), base),
+        ("uvl-parser-comment-or-blank-line-inside-block", "comment line at column 0",
+         plain.replace("            C\n", "// second child\n            C\n"), base),
+        ("uvl-parser-comment-or-blank-line-inside-block", "comment line between two constraints",
+         plain.replace("    C => B\n", "    // other direction\n    C => B\n"), base),
+        ("uvl-parser-comment-or-blank-line-inside-block", "empty line inside the features block",
+         plain.replace("            C\n", "\n            C\n"), base),
+        ("uvl-parser-comment-or-blank-line-inside-block", "two empty lines before constraints",
+         plain.replace("constraints\n", "\n\nconstraints\n"), base),
+        (None, "control:end-of-line comment", plain.replace("            B\n", "            B // first\n"), base),
+        (None, "control:(A.x - 2) + 3 > 1", *arith("(A.x - 2) + 3 > 1", OP("GREATER", OP("ADD", OP("SUB", X, num(2)), num(3)), num(1)))),
+        ("uvl-grammar-arithmetic-precedence", "A.x - 2 + 3 > 1", *arith("A.x - 2 + 3 > 1", OP("GREATER", OP("ADD", OP("SUB", X, num(2)), num(3)), num(1)))),
+        ("uvl-grammar-arithmetic-precedence", "A.x * 2 + 3 > 1", *arith("A.x * 2 + 3 > 1", OP("GREATER", OP("ADD", OP("MUL", X, num(2)), num(3)), num(1)))),
+        ("uvl-grammar-arithmetic-precedence", "A.x + 2 * 3 > 1", *arith("A.x + 2 * 3 > 1", OP("GREATER", OP("ADD", X, OP("MUL", num(2), num(3))), num(1)))),
+        ("uvl-grammar-arithmetic-precedence", "A.x / 2 * 3 > 1", *arith("A.x / 2 * 3 > 1", OP("GREATER", OP("MUL", OP("DIV", X, num(2)), num(3)), num(1)))),
+        (None, "control:list [1, 2]", "features\n    A {v [1, 2]}\n", dict(root=F("A", attrs=[A("v", default=[1, 2])]), ctcs=[])),
+        ("uvl-lexer-one-integer-list", "list [1]", "features\n    A {v [1]}\n", dict(root=F("A", attrs=[A("v", default=[1])]), ctcs=[])),
+        ("uvl-lexer-one-integer-list", "list [[1, 2], [3]]", "features\n    A {v [[1, 2], [3]]}\n",
+         dict(root=F("A", attrs=[A("v", default=[[1, 2], [3]])]), ctcs=[])),
+        (None, "control:string 'v1_0'", "features\n    A {s 'v1_0'}\n", dict(root=F("A", attrs=[A("s", default="v1_0")]), ctcs=[])),
+        ("uvl-lexer-string-with-dot-or-empty", "string 'v1.0'", "features\n    A {s 'v1.0'}\n",
+         dict(root=F("A", attrs=[A("s", default="v1.0")]), ctcs=[])),
+        ("uvl-lexer-string-with-dot-or-empty", "empty string", "features\n    A {s ''}\n",
+         dict(root=F("A", attrs=[A("s", default="")]), ctcs=[])),
+        ("uvl-reader-constraint-attribute", "constraint attribute",
+         "features\n    A {x 1, constraint A => B, y 2}\n        optional\n            B\n",
+         dict(root=F("A", [R(0, 1, [F("B")])], attrs=[A("x", default=1), A("y", default=2)]),
+              ctcs=[("c0", OP("IMPLIES", T("A"), T("B")))])),
+        (None, "control:aligned dedent", "features\n    A\n        mandatory\n            B\n        optional\n            C\n",
+         dict(root=F("A", [R(1, 1, [F("B")]), R(0, 1, [F("C")])]), ctcs=[])),
+        ("uvl-lexer-misaligned-dedent-accepted", "optional at column 10 beside mandatory at column 8",
+         "features\n    A\n        mandatory\n            B\n          optional\n            C\n", RAISE),
+        ("uvl-lexer-misaligned-dedent-accepted", "constraints at column 2",
+         "features\n    A\n        mandatory\n            B\n  constraints\n    B\n", RAISE),
+    ]
+    try:
+        for key, label, text, expected in docs:
+            path = sc.path("uvl")
+            with open(path, "w", encoding="utf-8") as fh:
+                fh.write(text)
+            cst = parse_uvl(path)
+            mread = ctx.model.call_raw(sx.dumps(tag("uvl_read_cst", cst))) if cst is not None else "(err FlamaException)"
+            holder = {}
+
+            def read_file():
+                with contextlib.redirect_stderr(io.StringIO()):
+                    holder["fm"] = UVLReader(path).transform()
+                return holder["fm"]
+            logging.disable(logging.CRITICAL)
+            try:
+                iread = sx.dumps(fmt.result_pfm(read_file))
+            finally:
+                logging.disable(logging.NOTSET)
+            st.record(label, sx.dumps(text), iread, mread)
+            clause = f"known:{key}:{label}" if key else label
+            if expected == RAISE:
+                if "fm" in holder:
+                    st.oracle_fail(label, sx.dumps(text), clause, "a model was returned for a document with a syntax error")
+                continue
+            if "fm" not in holder:
+                st.oracle_fail(label, sx.dumps(text), clause, "valid document rejected: " + iread[:120])
+                continue
+            back = spec.dump_fm(holder["fm"])
+            diffs = fmt.spec_equal(expected, back)
+            if [a for _, a in back["ctcs"]] != [uvl_norm_node(a) for _, a in expected["ctcs"]]:
+                diffs.append(f"constraints read: {[a for _, a in back['ctcs']]}")
+            if diffs:
+                st.oracle_fail(label, sx.dumps(text), clause, "; ".join(str(d) for d in diffs[:3])[:400])
+    finally:
+        sc.close()
